@@ -54,12 +54,21 @@ MANIFEST_ENTRY = {
             "flattened field written back after ANY later history that does not re-bind the vector's cells restores exactly "
             "the values it was taken with), held_view_reads_named_column (a view made earlier reads the column its field NAME "
             "has now, after any history), kept_independent, invariant_all_histories_held, stale_view_counterexample (the "
-            "code before repair fbb3a1b). The "
+            "code before repair fbb3a1b). (9) growth 6, Props/C11Ext.lean: rejected_no_effect (on every invariant state a call of the "
+            "atomic class — creation, retrieval, single-cell assignment, scalar field arithmetic, set_flattened, write-back, "
+            "add_fields, remove_fields, copy, data setter, metadata — that raises leaves heap, vectors and metadata exactly as they "
+            "were), rejected_then_same, history_drops_rejected / all_histories_drop_rejected (a whole history ends in the state of "
+            "the history with every rejected atomic call deleted), lastWriter_spec / assign_lastWriter (fancy assignment with index "
+            "lists in ANY order and with repeats: position p finally holds the value of the LAST k with ps[k] = p; end to end from "
+            "opSetItem, no distinctness hypothesis), and the argument forms of from_shape (Model/VectorFront.lean: tuple / int / bool "
+            "/ int-like tests of validate_shape, validate_fields, validate_num_fields, validate_vector_units): front_refines_core, "
+            "front_preserves_invariant, front_rejected_no_effect, first_bad_dim_wins, checkDims_pos. The "
             "model is tied to the code on every run by a step-by-step differential run of random op histories (full "
             "state compared exactly after every step: values, dtype kinds, object identity), and an independent "
             "pure-Python exact-rational reference evaluates the property on the real class (failing-input search).",
     "note": "Measured only (correspondence + oracle, no theorem): field arithmetic whose operand is another field view; "
-            "last-writer-wins for repeated positions in one fancy assignment; that Vector.flatten() (2-D) hands out storage "
+            "the partial effect of a RAISING list-valued fancy assignment / array-operand field arithmetic (outside the atomic "
+            "class of rejected_no_effect; invariant_step covers them); that Vector.flatten() (2-D) hands out storage "
             "of its own (tie only: the property does not speak about it); public signatures / defaults (pinned table). "
             "Trusted: Lean kernel + propext/Classical.choice/Quot.sound; hand model validated by sampled correspondence "
             "only; NumPy semantics (hstack promotion, fancy column selection, deepcopy memo, in-place column assignment "
@@ -71,7 +80,12 @@ MANIFEST_ENTRY = {
                  "column rebuild / assignment loops; row-major bijection lemma for N-D addressing) + model-vs-"
                  "implementation correspondence with alias fingerprints + exact reference-model predicate",
 }
-RULE = ("random op sequences on a world of several vectors sharing arrays, with field views and flattened arrays the caller "
+RULE = ("184 fixed argument-form cases of from_shape (one case = one call; distinct = distinct request); 20 FIXED op histories "
+        "(c11_fixed.py, independent of VERIF_SEED: 3-D / 4-D copy + in-place ops on either side, unsorted / descending / repeating "
+        "index lists and negative-step slices on every fixed dimension, last index / index == length / negative indices, exactly one "
+        "populated cell with kept flatten() results, 11-14 fields, axis lengths 11 / 13, cells of 130 / 260 rows, zero-row cells, "
+        "rejected calls between valid ones, two vectors of one schema alive); then "
+        "random op sequences on a world of several vectors sharing arrays, with field views and flattened arrays the caller "
         "keeps and uses again later; a case is one op applied to a state; "
         "distinct non-trivial = distinct (op kind, outcome, #fixed dims of target, index kinds used, value kind, "
         "whether the target holds an array that also sits elsewhere) with at least one populated cell in the world")
@@ -79,6 +93,12 @@ TRUSTED = ["NumPy array semantics used by vector.py (np.hstack, arr[:, idx], arr
            "np.vstack return storage of their own)",
            "float64 arithmetic is exact on the generated quarter-integer values (scale bounded by construction)"]
 ASSUMPTIONS = [
+    "argument forms of from_shape (stream vector-front): shape as tuple / list / int / None / ndarray with dimensions int, bool, "
+    "float, np.int64, str, None; num_fields as int, bool, 2.0, np.int64, str; fields / units as list, tuple, str, set, dict. Only the "
+    "exception TYPE and, on success, shape / fields / units / number of unset cells are compared. from_data is driven with a list and "
+    "int num_fields only (its `data is not a list` TypeError and non-int num_fields are not modelled); the direct constructor "
+    "(RuntimeError without the class token), __repr__ / __str__ and the `return np.arange(dim_size)` fall-through of get_indices "
+    "(None / Ellipsis / float as index: outside the declared index types) are not part of the tie",
     "held objects: a field view made earlier is used again after later operations (flatten, arithmetic, set_flattened, "
     "indexing); a kept flatten() result must stay bit-identical under every later operation and is written back later "
     "(the oracle writes the values it had when it was handed out); when the view's field has been removed nothing is claimed "
